@@ -8,6 +8,9 @@
 //!   again is a double free (not passed on to the system allocator),
 //! * when the model count reaches 0, the whole footprint must be gone.
 //!
+//! The allocator also never over-aligns (see `sys_alloc`): every block with an
+//! alignment request of at most 8 lives at an address that is 8 modulo 16.
+//!
 //! Addresses are kept as integers in fixed static tables, nothing here
 //! allocates. The monitor is compiled out of the asan/valgrind/miri runs: a
 //! table of remembered addresses would hide leaks from those tools.
@@ -96,7 +99,7 @@ fn error(kind: usize, zone: usize, addr: usize) {
 
 unsafe impl GlobalAlloc for Mon {
     unsafe fn alloc(&self, layout: Layout) -> *mut u8 {
-        let p = unsafe { System.alloc(layout) };
+        let p = unsafe { sys_alloc(layout) };
         if ENABLED.load(SeqCst) && !p.is_null() {
             ALLOCS.fetch_add(1, SeqCst);
             let addr = p as usize;
@@ -143,8 +146,32 @@ unsafe impl GlobalAlloc for Mon {
                 }
             }
         }
-        unsafe { System.dealloc(p, layout) }
+        unsafe { sys_dealloc(p, layout) }
     }
+}
+
+/// A legal but hostile allocator: a block whose layout asks for an alignment of at most 8 is placed at an address that
+/// is 8 modulo 16, i.e. it is never aligned more strictly than requested (glibc over-aligns everything to 16, which
+/// hides code that borrows more low pointer bits than the alignment of its types guarantees).
+unsafe fn sys_alloc(layout: Layout) -> *mut u8 {
+    if layout.align() > 8 || layout.size() == 0 {
+        return unsafe { System.alloc(layout) };
+    }
+    let Ok(l2) = Layout::from_size_align(layout.size() + 16, 16) else { return core::ptr::null_mut() };
+    let b = unsafe { System.alloc(l2) };
+    if b.is_null() {
+        b
+    } else {
+        unsafe { b.add(8) }
+    }
+}
+
+unsafe fn sys_dealloc(p: *mut u8, layout: Layout) {
+    if layout.align() > 8 || layout.size() == 0 {
+        return unsafe { System.dealloc(p, layout) };
+    }
+    let l2 = unsafe { Layout::from_size_align_unchecked(layout.size() + 16, 16) };
+    unsafe { System.dealloc(p.sub(8), l2) }
 }
 
 pub fn enable(on: bool) {
